@@ -560,6 +560,18 @@ def check_C19(ctx, replay=None):
                 bad("a non-Linux stub performs calls", function=m.group(1), calls=int(m.group(2)))
             if m.group(1) == "Supported" and m.group(4) != "false":
                 bad("the non-Linux Supported stub does not report false", returns=m.group(4))
+    # targets without syscall tables: the lookup Policy.Assemble performs (arch.GetInfo of the GOARCH) must fail
+    goarches = sorted(set(t["goarch"] for t in targets))
+    if goarches:
+        rg = ctx.run_harness(["getinfo"], "\n".join("x" + g.encode().hex() for g in goarches) + "\n")
+        for ln in rg.stdout.splitlines():
+            f = ln.split()
+            g = unhex(f[0]).decode()
+            if g not in ("386", "amd64", "arm", "arm64") and f[1] == "OK":
+                bad("a GOARCH without syscall tables resolves to a table, so compiling on that target produces a filter (for the wrong ABI) instead of an unsupported-architecture error",
+                    goarch=g, input_hex=g.encode().hex(), resolves_to=f[2] if len(f) > 2 else None)
+            if g in ("386", "amd64", "arm", "arm64") and f[1] != "OK":
+                bad("a GOARCH with a syscall table does not resolve", goarch=g, input_hex=g.encode().hex())
     # translator cross-check: the running (host) build's constants vs the regenerated record of the host target
     r = ctx.run_harness(["consts"], "")
     host = {}
